@@ -1,8 +1,8 @@
 import json,sys
 pid=sys.argv[1]; avoid=sys.argv[2]; tag=sys.argv[3] if len(sys.argv)>3 else 'b'
-base=open('/tmp/seed_prompt.py').read()
+
 import subprocess
-txt=subprocess.run(['python3','/tmp/seed_prompt.py',pid],capture_output=True,text=True).stdout
+txt=subprocess.run(['python3',__import__('os').path.join(__import__('os').path.dirname(__import__('os').path.abspath(__file__)),'seed_prompt.py'),pid],capture_output=True,text=True).stdout
 wt=f"/tmp/seed_{pid}{tag}"
 txt=txt.replace(f"/tmp/seed_{pid}",wt)
 txt=txt.replace("Prefer a change that is subtle","An earlier attempt already used a change in: "+avoid+". Choose a DIFFERENT mechanism / different function / different clause of the property than that.\nPrefer a change that is subtle")
